@@ -69,6 +69,14 @@ Empty ==
   /\ ret' = IF CanReceive THEN 0 ELSE 1
   /\ UNCHANGED <<geo, win, nclaims, numFree, sendp, flags, receivep>>
 
+(* n whole cycles (claim, send, receive, release) on an idle queue, nothing else in between: the cursors have advanced   *)
+(* by n modulo the depth; adv = n % depth (the trace gives n, which may exceed 2^32, in 16-bit halves)                   *)
+Cycles(adv) ==
+  /\ win = <<>> /\ adv \in 0..(geo.depth - 1)
+  /\ nclaims' = (nclaims + adv) % geo.depth /\ sendp' = (sendp + adv) % geo.depth /\ receivep' = (receivep + adv) % geo.depth
+  /\ ret' = 0
+  /\ UNCHANGED <<geo, win, numFree, flags>>
+
 Next == Claim \/ Receive \/ Release \/ Empty \/ \E i \in 1..Depth : Send(i)
 Spec == Init /\ [][Next]_vars
 
